@@ -35,7 +35,7 @@ Cl == [o |-> "c"]                                 \* reference := display.clone(
 Sw == [o |-> "x"]                                 \* swap(display, reference)
 Px(p, c) == <<p[1], p[2], c>>
 
-P0 == <<0, 0>>   P1 == <<Mx, 1>>   P2 == <<1, Mx>>
+P0 == <<0, 0>>   P1 == <<Mx, Mx>>   P2 == <<1, 1>>       \* first cell, last cell, a middle cell
 OutL == <<-1, 1>>   OutR == <<SIZE, 1>>   OutT == <<1, -1>>   OutB == <<1, SIZE>>
 
 SmallOps ==
